@@ -1,12 +1,42 @@
-(* refcount: the codec only produces well-formed resolver returns (value g+1, never context.Canceled). *)
+(* refcount: the codec only produces well-formed resolver returns (value g+1, or the empty value together with an error;
+   never context.Canceled). *)
 From Util Require Import Common.Base Common.ListLemmas RefCount.Model RefCount.Spec RefCount.Proofs RefCount.ProofsC08.
+
+Lemma res_ok_wf g er z : res_ok er z = true -> val_ok (n2n g) (res_val false g z) (n2n er) /\ n2n er <> 1%nat.
+Proof.
+  unfold res_ok, res_val. intros H. apply andb_true_iff in H. destruct H as [H1 H2]. apply negb_true_iff in H1.
+  split.
+  - destruct (N.eqb_spec z 0) as [Ez|Ez]; [left; reflexivity|]. cbn [orb] in H2. apply andb_true_iff in H2. destruct H2 as [_ H2].
+    apply negb_true_iff in H2. right. split; [reflexivity|]. intros E. apply N.eqb_neq in H2. apply H2. apply N2Nat.inj. exact E.
+  - intros E. apply N.eqb_neq in H1. apply H1. apply N2Nat.inj. exact E.
+Qed.
+
+Lemma codec_ret8_wf h g hr er z h' o :
+  hconst h = false ->
+  match nth_error (gs (hs h)) (n2n g) with
+  | Some x => match gpcv x with
+              | GInRes => if res_ok er z
+                          then let s'' := settle (resolver_return (hs h) (n2n g) (res_val (hconst h) g z) (nz hr) (n2n er)) in
+                               Some ({| hs := s''; hrel := length (rellog s''); hconst := hconst h |}, obs_of [] s'' (hrel h))
+                          else None
+              | _ => None
+              end
+  | None => None
+  end = Some (h', o) ->
+  exists e, wf_ev e /\ hs h' = settle (step repaired (hs h) e).
+Proof.
+  intros Hc. rewrite Hc. destruct (nth_error (gs (hs h)) (n2n g)) as [x|]; [|discriminate].
+  destruct (gpcv x); try discriminate. destruct (res_ok er z) eqn:Eok; [|discriminate].
+  intros H. inversion H; subst. exists (EResReturn (n2n g) (res_val false g z) (nz hr) (n2n er)). split; [|reflexivity].
+  exact (res_ok_wf g er z Eok).
+Qed.
 
 Lemma codec_resreturn_wf h g hr er h' o :
   hconst h = false -> hstep h [8%N; g; hr; er] = Some (h', o) ->
   exists e, wf_ev e /\ hs h' = settle (step repaired (hs h) e).
-Proof.
-  intros Hc. unfold hstep. rewrite Hc. destruct (nth_error (gs (hs h)) (n2n g)) as [x|]; [|discriminate].
-  destruct (gpcv x); try discriminate. destruct (N.eqb_spec er 1) as [E|E]; [discriminate|].
-  intros H. inversion H; subst. exists (EResReturn (n2n g) (S (n2n g)) (nz hr) (n2n er)). split; [|reflexivity].
-  split; [reflexivity|]. intros E1. apply E. apply N2Nat.inj. exact E1.
-Qed.
+Proof. intros Hc H. exact (codec_ret8_wf h g hr er 0%N h' o Hc H). Qed.
+
+Lemma codec_resreturn5_wf h g hr er z h' o :
+  hconst h = false -> hstep h [8%N; g; hr; er; z] = Some (h', o) ->
+  exists e, wf_ev e /\ hs h' = settle (step repaired (hs h) e).
+Proof. intros Hc H. exact (codec_ret8_wf h g hr er z h' o Hc H). Qed.
